@@ -122,7 +122,8 @@ def detail(run, scn, devs):
                    at=(f"{w[0]}:{w[1]}" if isinstance(w, tuple) else str(w)))
               for (k, a, b, w) in obs.where if k in devs]
     else:
-        sw = [dict(decision=k, choice=c, ready_handles=n) for (k, c, n) in obs.where if k in devs]
+        sw = [dict(decision=k, choice=c, ready_handles=n, ran_last=f"sender {a}", next=f"sender {b}")
+              for (k, c, n, a, b) in obs.where if k in devs]
     return dict(switches=sw, model_steps=list(obs.labels),
                 callback_marks=[f"{k}{uid}.{name}@{a}" for k, uid, name, a in obs.marks],
                 sends=[dict(sender=a, uid=u, returned=r, exc=e) for a, u, r, e in obs.sends],
